@@ -731,3 +731,43 @@ from . import c04 as _c04
 PROP.obligation('C05.address-cache', canaries=[
     mut.replace_expr('keys', 'Key.address', 'self._address_obj.network == self.network', 'True', 'an output to a key object reports the address of the network the key had before network_change'),
 ])(_c04.address_cache)
+
+
+@PROP.obligation('C05.bech32-network-filter', canaries=[
+    mut.drop_stmt('keys', 'deserialize_address', 'if network not in networks', 'bech32 addresses of another network pass the network filter', nth=1),
+    mut.replace_expr('keys', 'deserialize_address', "network or ''", "'' if not networks else networks[0]", 'the first network that uses the prefix is reported instead of the requested one'),
+])
+def bech32_network_filter(ctx):
+    """"An address belonging to a different network than the transaction is refused": Address.parse(addr, network=N) and every address
+    argument of transactions go through deserialize_address(addr, network=N). Its Bech32 branch is evaluated on a decoded tb1...
+    address whose prefix belongs to testnet and signet: network='bitcoin' raises, network='signet' reports signet, no network reports
+    the first one (testnet). An ignored filter gives an Address object of network bitcoin that prints tb1... and is accepted as the
+    output of a bitcoin transaction."""
+    q = 'keys:deserialize_address'
+    fn = ctx.repo.func(q)
+    n = 0
+    for net, want in (('bitcoin', 'raise'), ('litecoin', 'raise'), ('signet', 'signet'), ('testnet', 'testnet'), (None, 'testnet')):
+        hooks = {'addr_bech32_to_pubkeyhash': lambda it, a, kw, st, node: b'\x00\x14' + bytes(range(20)),
+                 'network_by_value': lambda it, a, kw, st, node: ['testnet', 'signet'] if a and a[0] == 'prefix_bech32' else [],
+                 'addr_bech32_checksum': lambda it, a, kw, st, node: S(('var', 'checksum'))}
+        it = Interp(ctx.repo, 'keys', hooks=hooks)
+        try:
+            exits = it.run_function(fn, {'address': 'tb1qw508d6qejxtdg4y5r3zarvary0c5xw7kxpjzsx', 'encoding': 'bech32', 'network': net})
+        except AnalysisError as e:
+            ctx.undecided('deserialize_address(bech32, network=%r) not evaluable: %s' % (net, str(e)[:100]))
+        rets = [e for e in exits if e.kind == 'return']
+        n += 1
+        got = []
+        for e in rets:
+            v = e.value
+            if isinstance(v, dict):
+                got.append(v.get('network') if not isinstance(v.get('network'), S) else show(term(v.get('network'))))
+            else:
+                ctx.undecided('deserialize_address(bech32, network=%r) returns %s, not a dictionary the evaluator can read' % (net, show(term(v))[:60]))
+        ctx.saw("deserialize_address('tb1q...', network=%r), prefix tb used by testnet and signet -> %s" % (net, 'refused' if not rets else 'network %s' % got))
+        if want == 'raise':
+            ctx.require(not rets, q, "deserialize_address('tb1q...', encoding='bech32', network=%r) returns network %s: the prefix tb is not used by %s" % (net, got, net), fn,
+                        "Address.parse('tb1q...', network='bitcoin') is an Address of network bitcoin that prints tb1q...; Transaction(network='bitcoin').add_output(v, it) accepts the testnet address")
+        else:
+            ctx.require(bool(rets) and all(g == want for g in got), q, "deserialize_address('tb1q...', network=%r) %s, expected network %s" % (net, 'is refused' if not rets else 'reports %s' % got, want), fn)
+    ctx.floor(n, 5, 'network filters')
